@@ -310,6 +310,7 @@ func (mr *modelReference) writeProtobuf(generation int) error {
 	buf := make([]byte, 4)
 	binary.LittleEndian.PutUint32(buf, uint32(len(msg)))
 	fmt.Printf("Writing gen %d of %s\n", generation, mr.ModelName)
+	verifEvent("psendbegin", "model", mr.ModelName, "gen", generation, "bytes", len(msg))
 	if _, err := mr.OutputWriter.Write(buf); err != nil {
 		return err
 	}
@@ -318,11 +319,14 @@ func (mr *modelReference) writeProtobuf(generation int) error {
 		return err
 	}
 	fmt.Printf("Sent gen %d of %s\n", generation, mr.ModelName)
+	verifEvent("psendend", "model", mr.ModelName, "gen", generation)
 
 	if generation == len(mr.Batches)-1 {
 		fmt.Printf("Waiting for output writer for %s to close\n", mr.ModelName)
 		mr.OutputWriter.Close()
+		verifEvent("pclose", "model", mr.ModelName)
 		mr.OutputProcess.Wait()
+		verifEvent("pwaitend", "model", mr.ModelName)
 		fmt.Printf("Output writer for %s closed\n", mr.ModelName)
 	}
 
